@@ -31,9 +31,12 @@ def histories(rng, tier):
             red = rng.choice(['and', 'or'])
         else:
             red = rng.choice(c07.FLOAT_REDS + ['wmean', 'wmean'])
+        if red != 'and' and rng.random() < 0.3:
+            # allocated coverage pixels that may stay completely unobserved (sum -> 0, prod -> 1 there)
+            c.covpix = rng.sample(range(c.ncov), rng.randint(1, min(2, c.ncov)))
         h = [c.line()]
         pix = c07.fill_groups(rng, c, h, ordout, full_only=(red == 'and'))
-        covered = sorted(set(p // c.nfine for p in pix))
+        covered = sorted(set(p // c.nfine for p in pix) | set(c.covpix))
         wtxt = wtxt2 = ''
         if red == 'wmean':
             wdt = 'f4' if (c.kind == 'plain' and c.dtype == 'f4') else rng.choice(['f4', 'f8'])
